@@ -36,6 +36,7 @@
 -/
 import SF.Proofs.FoldTagRules
 import SF.Proofs.FoldRulesTop
+import SF.Proofs.FoldCustomTop
 namespace SF.Props.C12
 open SF SF.Gotype SF.Gotype.Fold SF.Gotype.Rules SF.FoldProofs
 
@@ -151,3 +152,49 @@ example :
     hintOK_nil h4 (by decide)⟩
 
 end SF.Props.C12
+
+
+/-! ## rule 2 and rule 6e: custom folders and IsZeroers (proofs SF/Proofs/Cus*.lean, FoldCustomTop.lean) -/
+
+namespace SF.PropsCustom.C12
+open SF SF.Gotype SF.Gotype.Fold SF.Gotype.Rules SF.FoldProofs SF.FoldProofs.Custom
+
+/-- C12 on the extended universe, agreement: for every type of `goodC reg` (everything in `goodT`
++ named types with `Fold` / `IsZero` methods on either receiver + registered fold functions when
+`reg`), every value of it (`wtC reg`: as `wt`, and the custom code is defined on the value and
+emits ONE value), user folders registered in the mirror iff the rules count them, a healthy
+visitor: if the rules give `r` — a custom folder's value exactly as the folder emits it, an
+omitempty field dropped iff `IsZero()`, the object of a custom folder inlined — the mirror returns
+ok and its events build a value `Rules.agrees` accepts for `r` -/
+theorem fold_agrees_custom (o : FoldOpts) (reg : Bool) (hreg : o.folders = reg) (T : GoType) (v : GoVal) (r : RVal)
+    (hp : goodC reg [] T = true) (hdt : tdepth T ≤ dynBound) (hw : wtC reg T v = true)
+    (hdv : 3 * vdepth v + 6 ≤ runFuel)
+    (hfail : o.failAt = none) (hord : hintOK o.order)
+    (hspec : Rules.foldR T v reg = .ok r) (hcost : rcost r ≤ 100000) :
+    (impl o T v).res = .ok ∧ ∃ g, build (expandAll (impl o T v).evs) = some g ∧ Rules.agrees r g = true :=
+  SF.FoldProofs.Custom.fold_agrees o reg hreg T v r hp hdt hw hdv hfail hord hspec hcost
+
+/-- … refusal: if the rules refuse (also: `inline` on a custom folder whose value is no object),
+the mirror returns a Go error — never ok, never a panic, never fuel exhaustion -/
+theorem fold_refuses_custom (o : FoldOpts) (reg : Bool) (hreg : o.folders = reg) (T : GoType) (v : GoVal) (e : RuleErr)
+    (hp : goodC reg [] T = true) (hdt : tdepth T ≤ specDynBound) (hw : wtC reg T v = true)
+    (hsm : dynSmall v = true) (hdv : 3 * vdepth v + 6 ≤ runFuel)
+    (hfail : o.failAt = none) (hord : hintOK o.order)
+    (hspec : Rules.foldR T v reg = .error e) (hne : e ≠ .fuel) :
+    ∃ e', (impl o T v).res = .err e' :=
+  SF.FoldProofs.Custom.fold_refuses o reg hreg T v e hp hdt hw hsm hdv hfail hord hspec hne
+
+/-- the universe of the first block is a sub-universe -/
+theorem universe_extends (reg : Bool) (T : GoType) (v : GoVal) (hp : goodT [] T = true) (hw : wt T v = true) :
+    goodC reg [] T = true ∧ wtC reg T v = true :=
+  SF.FoldProofs.Custom.universe_extends reg T v hp hw
+
+/-- non-vacuity: `struct{V FV; P *FP; Z ZV "n,omitempty"; I FV ",inline"}` with `Z = ZV{0}` — a
+folder on the value receiver as a field, one on the pointer receiver behind a pointer, an omitempty
+field dropped through `IsZero()`, the object of a custom folder inlined: in the universe, the rules
+give a value -/
+example : goodC true [] Examples.TC = true ∧ wtC true Examples.TC Examples.vC = true ∧
+    Rules.foldR Examples.TC Examples.vC = .ok Examples.rC :=
+  ⟨Examples.goodTC, Examples.wtTC 0, Examples.specC⟩
+
+end SF.PropsCustom.C12
